@@ -28,6 +28,16 @@ func strSlice(st *State, elems []string) Val {
 	return SliceV{Obj: id, Len_: len(elems), Cap: len(elems)}
 }
 
+// byteSliceVal builds an exact []byte.
+func byteSliceVal(st *State, b []byte) Val {
+	arr := &ArrayV{}
+	for _, x := range b {
+		arr.E = append(arr.E, int64(x))
+	}
+	id := st.alloc(types.NewArray(types.Typ[types.Uint8], int64(len(b))), arr)
+	return SliceV{Obj: id, Len_: len(b), Cap: len(b)}
+}
+
 func exactStrings(args []Val) ([]string, bool) {
 	out := make([]string, len(args))
 	for i, a := range args {
@@ -76,6 +86,109 @@ func installStringModels(m *Machine) {
 	m.Hooks["strings.Trim"] = s2(func(st *State, a, b string) Val { return strings.Trim(a, b) })
 	m.Hooks["strings.TrimRight"] = s2(func(st *State, a, b string) Val { return strings.TrimRight(a, b) })
 	m.Hooks["strings.TrimLeft"] = s2(func(st *State, a, b string) Val { return strings.TrimLeft(a, b) })
+	// suffix views of an input tape: trimming from the left moves the view's start
+	viewAware := func(name string, f func(m *Machine, st *State, ts TapeStr, arg string) ([]Val, bool)) {
+		old := m.Hooks[name]
+		m.Hooks[name] = func(m *Machine, st *State, call *ssa.CallCommon, args []Val) ([]Val, bool) {
+			if ts, ok := args[0].(TapeStr); ok {
+				arg, ok := args[1].(string)
+				if !ok {
+					return nil, false
+				}
+				return f(m, st, ts, arg)
+			}
+			return old(m, st, call, args)
+		}
+	}
+	// classOf: 1 = every byte of the class is in set, 0 = none is, -1 = mixed
+	inSet := func(m *Machine, sym int, set string) int {
+		all, none := true, true
+		for _, b := range m.Alpha.Members[sym] {
+			if strings.IndexByte(set, b) >= 0 {
+				none = false
+			} else {
+				all = false
+			}
+		}
+		switch {
+		case all:
+			return 1
+		case none:
+			return 0
+		}
+		return -1
+	}
+	viewAware("strings.TrimLeft", func(m *Machine, st *State, ts TapeStr, cut string) ([]Val, bool) {
+		off := ts.Off
+		for {
+			sym, ok := st.symAt(ts.T, int(off))
+			if !ok {
+				// blocked: retried after the next symbol is revealed. Keep the progress made so far when
+				// the operand is dead after this call (TrimLeft(s[k:]) continues where TrimLeft(s) stopped).
+				if off > ts.Off {
+					fr := st.top()
+					if call, isCall := fr.Blk.Instrs[fr.PC].(*ssa.Call); isCall && len(call.Call.Args) > 0 {
+						arg := call.Call.Args[0]
+						if !m.liveOf(fr.Fn).liveBefore(fr.Blk, fr.PC+1)[arg] {
+							if cur, isView := fr.Regs[arg].(TapeStr); isView && cur == ts {
+								fr.Regs[arg] = TapeStr{T: ts.T, Off: off}
+							}
+						}
+					}
+				}
+				return nil, true
+			}
+			if sym == symEND {
+				break
+			}
+			switch inSet(m, sym, cut) {
+			case 1:
+				off++
+				continue
+			case -1:
+				st.stuck("alphabet class too coarse for strings.TrimLeft(%q)", cut)
+				return nil, true
+			}
+			break
+		}
+		return []Val{TapeStr{T: ts.T, Off: off}}, true
+	})
+	prefix := func(m *Machine, st *State, ts TapeStr, pre string) (bool, bool) { // has, decided
+		for i := 0; i < len(pre); i++ {
+			sym, ok := st.symAt(ts.T, int(ts.Off)+i)
+			if !ok {
+				return false, false
+			}
+			if sym == symEND {
+				return false, true
+			}
+			switch inSet(m, sym, pre[i:i+1]) {
+			case 0:
+				return false, true
+			case -1:
+				st.stuck("alphabet class too coarse for a prefix test with %q", pre)
+				return false, false
+			}
+		}
+		return true, true
+	}
+	viewAware("strings.HasPrefix", func(m *Machine, st *State, ts TapeStr, pre string) ([]Val, bool) {
+		has, ok := prefix(m, st, ts, pre)
+		if !ok {
+			return nil, true
+		}
+		return []Val{has}, true
+	})
+	viewAware("strings.TrimPrefix", func(m *Machine, st *State, ts TapeStr, pre string) ([]Val, bool) {
+		has, ok := prefix(m, st, ts, pre)
+		if !ok {
+			return nil, true
+		}
+		if has {
+			return []Val{TapeStr{T: ts.T, Off: ts.Off + int64(len(pre))}}, true
+		}
+		return []Val{ts}, true
+	})
 	m.Hooks["strings.Index"] = s2(func(st *State, a, b string) Val { return int64(strings.Index(a, b)) })
 	m.Hooks["strings.LastIndex"] = s2(func(st *State, a, b string) Val { return int64(strings.LastIndex(a, b)) })
 	m.Hooks["strings.Split"] = s2(func(st *State, a, b string) Val { return strSlice(st, strings.Split(a, b)) })
@@ -266,6 +379,45 @@ func installStringModels(m *Machine) {
 		}
 		return []Val{int64(len(c.V.(*StructV).F[1].(string)))}, true
 	}
+	// bytes.Buffer used as a string builder: same cell model
+	for _, n := range []string{"WriteString", "WriteByte", "WriteRune", "String", "Len"} {
+		m.Hooks["(*bytes.Buffer)."+n] = m.Hooks["(*strings.Builder)."+n]
+	}
+	for _, recvT := range []string{"(*strings.Builder)", "(*bytes.Buffer)"} {
+		m.Hooks[recvT+".Grow"] = func(m *Machine, st *State, call *ssa.CallCommon, args []Val) ([]Val, bool) {
+			if n, ok := args[1].(int64); ok && n < 0 {
+				st.Status = stPanic
+				st.Msg = "negative count passed to Grow"
+				return nil, true
+			}
+			return []Val{nil}, true
+		}
+		m.Hooks[recvT+".Reset"] = func(m *Machine, st *State, call *ssa.CallCommon, args []Val) ([]Val, bool) {
+			c, ok := builderCell(st, args[0])
+			if !ok {
+				return nil, false
+			}
+			c.V.(*StructV).F[1] = ""
+			return []Val{nil}, true
+		}
+		m.Hooks[recvT+".Write"] = func(m *Machine, st *State, call *ssa.CallCommon, args []Val) ([]Val, bool) {
+			c, ok := builderCell(st, args[0])
+			b, ok2 := byteSliceOf(st, args[1])
+			if !ok || !ok2 {
+				return nil, false
+			}
+			sv := c.V.(*StructV)
+			sv.F[1] = sv.F[1].(string) + string(b)
+			return []Val{&TupleV{E: []Val{int64(len(b)), nilV{}}}}, true
+		}
+	}
+	m.Hooks["(*bytes.Buffer).Bytes"] = func(m *Machine, st *State, call *ssa.CallCommon, args []Val) ([]Val, bool) {
+		c, ok := builderCell(st, args[0])
+		if !ok {
+			return nil, false
+		}
+		return []Val{byteSliceVal(st, []byte(c.V.(*StructV).F[1].(string)))}, true
+	}
 	m.Hooks["strings.Fields"] = func(m *Machine, st *State, call *ssa.CallCommon, args []Val) ([]Val, bool) {
 		a, ok := exactStrings(args)
 		if !ok {
@@ -325,11 +477,11 @@ func installStringModels(m *Machine) {
 		if !ok {
 			return nil, false
 		}
-		n, err := strconv.Atoi(s)
+		n, err := strconv.ParseInt(s, 10, wordBits)
 		if err != nil {
 			return []Val{&TupleV{E: []Val{int64(0), IfaceV{T: errT, V: "syntax"}}}}, true
 		}
-		return []Val{&TupleV{E: []Val{int64(n), nilV{}}}}, true
+		return []Val{&TupleV{E: []Val{n, nilV{}}}}, true
 	}
 	m.Hooks["strconv.ParseInt"] = func(m *Machine, st *State, call *ssa.CallCommon, args []Val) ([]Val, bool) {
 		s, ok := args[0].(string)
@@ -337,6 +489,9 @@ func installStringModels(m *Machine) {
 		bits, ok2 := args[2].(int64)
 		if !ok || !ok1 || !ok2 {
 			return nil, false
+		}
+		if bits == 0 {
+			bits = int64(wordBits)
 		}
 		n, err := strconv.ParseInt(s, int(base), int(bits))
 		if err != nil {
@@ -350,6 +505,9 @@ func installStringModels(m *Machine) {
 		bits, ok2 := args[2].(int64)
 		if !ok || !ok1 || !ok2 {
 			return nil, false
+		}
+		if bits == 0 {
+			bits = int64(wordBits)
 		}
 		n, err := strconv.ParseUint(s, int(base), int(bits))
 		if err != nil {
@@ -384,6 +542,9 @@ func installStringModels(m *Machine) {
 // initState returns a fresh state in which the initialisers of the given
 // repository packages have been interpreted (package-level tables exist).
 func initState(m *Machine, pkgs ...string) *State {
+	if _, has := m.Hooks["reflect.TypeOf"]; !has {
+		installReflectModel(m) // package initialisers may compute reflect.TypeOf(...) of a type
+	}
 	st := &State{Heap: map[int]*HObj{}, Notes: map[string]bool{}, Globals: map[*ssa.Global]int{}}
 	if why := m.InitPackages(st, pkgs...); why != "" {
 		st.Status = stStuck
@@ -474,4 +635,44 @@ func installFuncModels(m *Machine) {
 	m.Hooks["strings.TrimLeftFunc"] = mk(func(s string, p func(rune) bool) Val { return strings.TrimLeftFunc(s, p) })
 	m.Hooks["strings.TrimFunc"] = mk(func(s string, p func(rune) bool) Val { return strings.TrimFunc(s, p) })
 	m.Hooks["strings.IndexFunc"] = mk(func(s string, p func(rune) bool) Val { return int64(strings.IndexFunc(s, p)) })
+}
+
+// installLineReader models the line-oriented read methods of *bufio.Reader (ReadString, ReadBytes,
+// ReadSlice, ReadLine) on top of next(), which yields the next line of the scripted input (with its
+// "\n", unless the input ends without one) and false at the end of the input.
+func installLineReader(m *Machine, next func(st *State) (string, bool)) {
+	delimited := func(asBytes bool) HookFn {
+		return func(m *Machine, st *State, call *ssa.CallCommon, args []Val) ([]Val, bool) {
+			if d, ok := args[1].(int64); !ok || d != '\n' {
+				return nil, false
+			}
+			l, ok := next(st)
+			var e Val = nilV{}
+			if !ok {
+				l, e = "", eofVal
+			} else if !strings.HasSuffix(l, "\n") {
+				e = eofVal
+			}
+			if !asBytes {
+				return []Val{&TupleV{E: []Val{l, e}}}, true
+			}
+			var data Val = nilV{}
+			if l != "" {
+				data = byteSliceVal(st, []byte(l))
+			}
+			return []Val{&TupleV{E: []Val{data, e}}}, true
+		}
+	}
+	m.Hooks["(*bufio.Reader).ReadString"] = delimited(false)
+	m.Hooks["(*bufio.Reader).ReadBytes"] = delimited(true)
+	m.Hooks["(*bufio.Reader).ReadSlice"] = delimited(true)
+	m.Hooks["(*bufio.Reader).ReadLine"] = func(m *Machine, st *State, call *ssa.CallCommon, args []Val) ([]Val, bool) {
+		l, ok := next(st)
+		if !ok {
+			return []Val{&TupleV{E: []Val{nilV{}, false, eofVal}}}, true
+		}
+		l = strings.TrimSuffix(l, "\n")
+		l = strings.TrimSuffix(l, "\r")
+		return []Val{&TupleV{E: []Val{byteSliceVal(st, []byte(l)), false, nilV{}}}}, true
+	}
 }
